@@ -32,7 +32,10 @@ func (c *Conversation) receiveUnit(m ValidMessage, forgetFragments bool) (plain 
 		shouldForgetFragment = false
 		c.fragmentationContext, err = c.receiveFragment(c.fragmentationContext, message)
 		if fragmentsFinished(c.fragmentationContext) {
-			return c.withInjectionsPlain(c.receiveUnit(c.fragmentationContext.frag, false))
+			// the reassembled message is handled once and then forgotten
+			whole := c.fragmentationContext.frag
+			c.fragmentationContext = forgetFragment()
+			return c.withInjectionsPlain(c.receiveUnit(whole, false))
 		}
 	case msgGuessUnknown:
 		c.messageEvent(MessageEventReceivedMessageUnrecognized)
